@@ -53,7 +53,8 @@ let frame_serial (f : BinNums.coq_N list) : int =
 (* generic script runner over a step function *)
 let run_script (type s) (step : s -> sev -> s) (init : s) (crashed : s -> bool)
     (seen : int -> s -> BinNums.coq_N list) (shut : int -> s -> bool)
-    (saved : int -> s -> (BinNums.coq_N list * BinNums.coq_N list) list) (is808 : bool) (toks : string list) : string =
+    (saved : int -> s -> (BinNums.coq_N list * BinNums.coq_N list) list)
+    (saved_all : s -> (BinNums.coq_N list * BinNums.coq_N list) list) (is808 : bool) (toks : string list) : string =
   let st = ref init in
   let opened = Hashtbl.create 8 in
   let order = ref [] in
@@ -62,6 +63,7 @@ let run_script (type s) (step : s -> sev -> s) (init : s) (crashed : s -> bool)
   let acc = ref "-" in
   let gseen = ref 0 in
   let verify = ref "" in
+  let xcheck = ref "" in
   let ev e = st := step !st e in
   let ensure k =
     if not (Hashtbl.mem opened k) then begin
@@ -70,7 +72,7 @@ let run_script (type s) (step : s -> sev -> s) (init : s) (crashed : s -> bool)
     end in
   Stdlib.List.iter (fun tok ->
       let (head, hx) = split_tok tok in
-      let data = if hx = "" || head.[0] = 'V' then [] else bytes_of_hex hx in
+      let data = if hx = "" || head.[0] = 'V' || head.[0] = 'X' || head.[0] = 'C' then [] else bytes_of_hex hx in
       match head.[0] with
       | 'G' ->
         ensure 0; ev (Data (n_of_int 0, n0, data));
@@ -78,7 +80,17 @@ let run_script (type s) (step : s -> sev -> s) (init : s) (crashed : s -> bool)
         let fresh = Stdlib.List.filteri (fun i _ -> i >= !gseen) all in
         g := !g @ [if fresh = [] then "none" else hex_of_bytes fresh];
         gseen := Stdlib.List.length all
-      | 'S' | 'C' -> ensure 0; ev (Data (n_of_int 0, n0, data))
+      | 'S' -> ensure 0; ev (Data (n_of_int 0, n0, data))
+      | 'C' ->
+        ensure 0;
+        Stdlib.List.iter (fun piece -> ev (Data (n_of_int 0, n0, bytes_of_hex piece))) (String.split_on_char ',' hx)
+      | 'X' ->
+        (* the last os.WriteFile to this path decides what is on disk *)
+        let (ph, ch) = split_tok hx in
+        let path = bytes_of_hex ph and content = if ch = "" then [] else bytes_of_hex ch in
+        xcheck := (match Stdlib.List.find_opt (fun (p, _) -> p = path) (saved_all !st) with
+            | Some (_, c) when c = content -> "1"
+            | _ -> "0")
       | 'J' ->
         let all = seen 0 !st in
         let fresh = Stdlib.List.filteri (fun i _ -> i >= !gseen) all in
@@ -134,6 +146,7 @@ let run_script (type s) (step : s -> sev -> s) (init : s) (crashed : s -> bool)
   Stdlib.List.iter (fun k -> Buffer.add_string buf (Printf.sprintf " k%d=%s" k (Hashtbl.find status k))) !order;
   Buffer.add_string buf (" a=" ^ !acc);
   if !verify <> "" then Buffer.add_string buf (" v=" ^ !verify);
+  if !xcheck <> "" then Buffer.add_string buf (" x=" ^ !xcheck);
   Buffer.contents buf
 
 let init () =
@@ -142,7 +155,7 @@ let init () =
       let parse_all = (pa = "1") in
       run_script (fun s e -> step808 parse_all s e) init808 (fun s -> s.v_crashed)
         (fun k s -> Stdlib.List.concat_map (fun o -> o.o_bytes) (fst (seen808 (n_of_int k) s)))
-        (fun k s -> snd (seen808 (n_of_int k) s)) (fun _ _ -> []) true toks
+        (fun k s -> snd (seen808 (n_of_int k) s)) (fun _ _ -> []) (fun _ -> []) true toks
     | _ -> "bad-args");
   register "containatt" (fun a -> match a with
     | d :: toks ->
@@ -150,5 +163,7 @@ let init () =
       run_script (fun s e -> stepatt dn s e) initatt (fun s -> s.a_crashed)
         (fun k s -> bytesatt (n_of_int k) s) (fun _ _ -> false)
         (fun k s -> Stdlib.List.concat_map (fun o -> match o with ASaved (_, files) -> files | _ -> [])
-            (seenatt (n_of_int k) s)) false toks
+            (seenatt (n_of_int k) s))
+        (fun s -> Stdlib.List.concat_map (fun (_, o) -> match o with ASaved (_, files) -> files | _ -> []) s.a_log)
+        false toks
     | _ -> "bad-args")
